@@ -40,6 +40,9 @@ ASSUME = ["allowed exceptions: diameter.message.packer.Error subclasses and AvpD
 
 LEN_VALUES = [0, 1, 7, 8, 11, 12, "len-1", "len+1", (1 << 24) - 1]
 MAX_WALK_DEPTH = 16
+# RFC 6733 4.2: the AVP Length of these types is fixed (payload widths in bytes)
+FIXED_WIDTH = {"AvpInteger32": 4, "AvpUnsigned32": 4, "AvpEnumerated": 4, "AvpFloat32": 4, "AvpInteger64": 8, "AvpUnsigned64": 8,
+               "AvpFloat64": 8, "AvpTime": 4}
 
 
 class WorkBudget(BaseException):
@@ -120,6 +123,12 @@ def walk_avps(avps, rec, case, depth, src, ADE):
         except Exception as e:
             rec.violation(f"C04/escape/{esc_sig(e, src)}", case, f"{type(a).__name__}.value raised {e!r}"[:300])
             v = None
+        # a payload whose length is impossible for a fixed-width type is malformed: reading it raises the decode error
+        width = FIXED_WIDTH.get(type(a).__name__)
+        if width is not None and not raised_first and v is not None and len(a.payload) != width:
+            rec.violation(f"C04/malformed-accepted/{type(a).__name__}", case,
+                          f"{type(a).__name__} with a payload of {len(a.payload)} bytes (the type has {width}): .value returned {str(v)[:60]} "
+                          f"instead of raising the decode error")
         # every read must behave the same: a malformed payload raises the decode
         # error each time, a well-formed one returns an equal value each time
         try:
